@@ -14,7 +14,7 @@ import (
 
 func init() {
 	streams["NS"] = streamNS
-	streamRules["NS"] = "all pairs of a structured boundary set of namespaces (reserved limits +-1, carry chains, 0x00/0xFF runs, versions 0/1/254/255) + random pairs: Compare and the five predicates; classification predicates; constructors on (version,id) incl. wrong lengths; AddInt with addends 0, +-1, +-255/256, +-2^k, MinInt64, MaxInt64; oracles against bytes.Compare / math/big; non-trivial = distinct op"
+	streamRules["NS"] = "all pairs of a structured boundary set of namespaces (reserved limits +-1, carry chains, 0x00/0xFF runs, versions 0/1/254/255) + random pairs: Compare and the five predicates; classification predicates; constructors on (version,id) incl. wrong lengths; AddInt with addends 0, +-1, +-255/256, +-2^k, MinInt64, MaxInt64; oracles against bytes.Compare / math/big; non-trivial = distinct op Added: JSON into receivers that already hold a value (refused documents leave them untouched; nothing writes through a copy of a package-level namespace)."
 }
 
 func rawNS(b []byte) share.Namespace {
